@@ -40,6 +40,7 @@ MUTATORS = [
     ("rename", 2), ("reset",), ("slice", 1, 0), ("slice", 0, 1),
 ]
 MUTATORS_SMALL = [MUTATORS[i] for i in (0, 2, 3, 5, 8, 9, 11, 14, 15, 16)]
+MUTATORS_TINY = [MUTATORS[i] for i in (0, 3, 5, 9, 11, 14, 16)]
 QSUB = ["none", "indexed", "rows"]
 
 
@@ -209,7 +210,7 @@ def main():
         sys.exit(chk.finish())
     jobs = []
     # depth-2 over the full alphabet with every query subset in between; depth-3 (4 in thorough) over the reduced alphabet
-    plans = [(MUTATORS, QSUB, 2), (MUTATORS_SMALL, ["none", "full"], 3)]
+    plans = [(MUTATORS, QSUB, 2), (MUTATORS_TINY, ["none", "full"], 3)]
     if thorough:
         plans = [(MUTATORS, QSUB + ["full"], 3), (MUTATORS_SMALL, ["none", "full"], 4)]
     n_seq = 0
